@@ -880,7 +880,12 @@ func (w *world) step(st J) J {
 			var msg *cose.Sign1Message
 			err = viaRecv(b, func(x []byte) error { var e error; msg, e = cose.VerifyHashEnvelope(v, x); return e })
 			obs["msgnil"] = msg == nil
-			if msg != nil {
+			if st["keep"] == true {
+				// life-cycle programs: the object is replaced only by a message handed out without an error
+				if msg != nil && err == nil {
+					w.objs[name] = msg
+				}
+			} else if msg != nil {
 				w.objs[name] = msg
 			} else {
 				delete(w.objs, name)
@@ -916,13 +921,13 @@ func (w *world) step(st J) J {
 			h := headersOf(st["m"])
 			switch o := w.objs[name].(type) {
 			case *cose.Sign1Message:
-				o.Headers.Protected, o.Headers.RawProtected = h.Protected, nil
+				o.Headers.Protected, o.Headers.RawProtected = h.Protected, h.RawProtected
 			case *cose.SignMessage:
-				o.Headers.Protected, o.Headers.RawProtected = h.Protected, nil
+				o.Headers.Protected, o.Headers.RawProtected = h.Protected, h.RawProtected
 			case *cose.Signature:
-				o.Headers.Protected, o.Headers.RawProtected = h.Protected, nil
+				o.Headers.Protected, o.Headers.RawProtected = h.Protected, h.RawProtected
 			case *cose.Countersignature:
-				o.Headers.Protected, o.Headers.RawProtected = h.Protected, nil
+				o.Headers.Protected, o.Headers.RawProtected = h.Protected, h.RawProtected
 			}
 		case "setunprot":
 			h := headersOf(st["m"])
